@@ -21,7 +21,7 @@ func ruleC02(prog *Program, rep *Report) {
 	ruleSurrogates(prog, rep)
 	ruleBigLimitAgree(prog, rep)
 	ruleFillOnce(prog, rep)
-	ruleBufAlias(prog, rep, append(append([]feSpec{}, jsonFrontEnds...), senFrontEnds...)...) // a string that is a view of the read buffer changes when the next chunk is read
+	ruleBufAlias(prog, rep, append(append([]feSpec{}, jsonFrontEnds...), senFrontEnds...)...)            // a string that is a view of the read buffer changes when the next chunk is read
 	ruleArmTwinsAll(prog, rep, false)                                                                    // counters and cursors the exploration keeps abstract
 	ruleBOM(prog, rep)                                                                                   // bytes dropped before the dispatch loop sees them change the values
 	ruleCursorAdvance(prog, rep)                                                                         // with Reuse, a recycled map handed out twice makes two objects of a document one value
